@@ -16,3 +16,15 @@ func VerifResetCounters() {
 	atomic.StoreUint64(&gsvcid, 0)
 	atomic.StoreInt64(&bufcnt, 0)
 }
+
+// VerifSetPacketIDCounters sets the packet identifier counter of every
+// connection the server currently serves (the next identifier a connection
+// assigns to a message it sends on its own behalf is v+1 modulo 65536), so
+// that the harness can reach the wrap-around without 65535 deliveries.
+func (svr *Server) VerifSetPacketIDCounters(v uint32) {
+	svr.mu.Lock()
+	defer svr.mu.Unlock()
+	for _, svc := range svr.svcs {
+		atomic.StoreUint32(&svc.pktid, v)
+	}
+}
